@@ -623,6 +623,33 @@ def build():
                          ("recv", "recv"), ("recv_silent", "recv"), ("recv_structured", "recv_structured")):
         R.add(f"seq[ThreadSocket.{method} forwards to the hub]", kind="seq", samples=16)(mk_forward(method, kind))
 
+    # ---- broadcast channel built on one socket per remote (sequential contract against queue stand-ins)
+    def broadcast(ctx):
+        from netqasm.sdk.classical_communication.broadcast_channel import BroadcastChannelBySockets
+        from specs.hub_sock import QueueSock
+
+        class Chan(BroadcastChannelBySockets):
+            @property
+            def _socket_class(self):
+                return QueueSock
+        remotes = ["bob", "carol", "dave"]
+        n = {r: ctx.choice(f"pending_{r}", [0, 1, 2]) for r in remotes}
+        if sum(n.values()) == 0:
+            n["carol"] = 1               # a blocking receive on an all-empty channel waits (liveness: not claimed)
+        QueueSock.PENDING = {r: [f"{r}{k}" for k in range(n[r])] for r in remotes}
+        QueueSock.SENT = []
+        before = {r: list(q) for r, q in QueueSock.PENDING.items()}
+        chan = ctx.call(Chan, "alice", remotes)
+        got = ctx.call(chan.recv)
+        after = {r: list(chan._sockets[r].queue) for r in remotes}
+        first = next(r for r in remotes if before[r])
+        ctx.check("a blocking receive returns (sender, message) of the first sender that has one pending, its OLDEST message", tuple(got) == (first, before[first][0]))
+        ctx.check("exactly that one message is consumed; nothing else is taken from any sender",
+                  all(after[r] == (before[r][1:] if r == first else before[r]) for r in remotes))
+        ctx.call(chan.send, "hello")
+        ctx.check("a broadcast is one send per remote, in order", QueueSock.SENT == [(r, "hello") for r in remotes])
+    R.add("seq[BroadcastChannelBySockets.recv / send]", kind="seq", samples=30, max_paths=200)(broadcast)
+
     def canary(ctx):
         w = World(ctx)
         gen = ctx.call(w.hub.recv, w.me, True)
